@@ -404,6 +404,10 @@ func (x *Exec) frameObligations(f *frame, c *Contract, entry, final *Heap, args 
 		}
 		key := x.ptrKey(p)
 		pt := p.T.Underlying().(*types.Pointer).Elem()
+		if name, ok := isOpaque(pt); ok && name == "math/big.Int" {
+			// `modifies *z` for a *big.Int covers the integer it holds
+			allowed[bigIntKey] = append(allowed[bigIntKey], ml{p.C[0], "", false})
+		}
 		for _, cm := range x.comps(pt) {
 			if p.Idx != "" {
 				allowed[key+cm.suffix+"[]"] = append(allowed[key+cm.suffix+"[]"], ml{p.C[0], p.Idx, l.elems})
